@@ -1,6 +1,7 @@
 package props
 
 import (
+	"bytes"
 	"fmt"
 
 	"github.com/coyim/otr3"
@@ -216,14 +217,22 @@ func TestProp_C03_Queued(t *testing.T) {
 // ---- the peer ends the session, in every way an honest or sloppy client may write that down (C03, C18) ----
 
 // PeerEndCase: otr3 talks to the reference, which ends the session with a disconnect message whose plaintext area is
-// written in the given way; afterwards Send must refuse the user's text and emit nothing until End() is called.
+// written in the given way; afterwards Send must refuse the user's text and emit nothing until End() is called (C03),
+// the lifecycle events are those of one session ending (C18), and no D-H secret of the session is left (C08).
 type PeerEndCase struct {
-	V    int `json:"v"`
-	Tail int `json:"tail"`
-	Pre  int `json:"pre"` // rounds of traffic before
+	V     int  `json:"v"`
+	Tail  int  `json:"tail"`
+	Pre   int  `json:"pre"`             // rounds of traffic before
+	Val   int  `json:"val,omitempty"`   // length of the value the disconnect record carries (the specification fixes none)
+	Words bool `json:"words,omitempty"` // user text travels in the same message
+	Pad   int  `json:"pad,omitempty"`   // > 0: a padding record of Pad-1 bytes comes first
 }
 
-func runPeerEnd(c *PeerEndCase) *sim.Outcome {
+func runPeerEndFor(prop string) func(c *PeerEndCase) *sim.Outcome {
+	return func(c *PeerEndCase) *sim.Outcome { return runPeerEnd(c, prop) }
+}
+
+func runPeerEnd(c *PeerEndCase, prop string) *sim.Outcome {
 	o := &sim.Outcome{}
 	m := newMix(SessCfg{V: c.V, SeedA: 1030, SeedB: 1081, KeyA: 0, KeyB: 3}, 0)
 	if !m.Establish(c.Pre & 1) {
@@ -235,58 +244,150 @@ func runPeerEnd(c *PeerEndCase) *sim.Outcome {
 		m.fromR(m.R.Send([]byte(token(1, i+1))))
 		m.Settle(nil, nil)
 	}
-	// text part empty, NUL, then the TLV area
-	disc := []byte{0, 0, 1, 0, 0} // NUL, type 1 (disconnected), length 0
+	// text part (empty unless there are last words), NUL, then the record area
+	var raw []byte
+	words := token(1, 77) + " goodbye"
+	if c.Words {
+		raw = append(raw, words...)
+	}
+	raw = append(raw, 0)
+	if c.Pad > 0 {
+		raw = append(raw, 0, 0, 0, byte(c.Pad-1))
+		raw = append(raw, make([]byte, c.Pad-1)...)
+	}
+	raw = append(raw, 0, 1, 0, byte(c.Val)) // type 1 (disconnected), length
+	raw = append(raw, []byte("bye!")[:c.Val]...)
 	tails := [][]byte{
-		nil,                                  // exactly the TLV
-		{0, 0, 0, 3, 0, 0, 0},                // followed by a padding TLV
+		nil,                                  // exactly the record
+		{0, 0, 0, 3, 0, 0, 0},                // followed by a padding record
 		{0},                                  // a stray byte
-		{0, 0, 0},                            // three stray bytes (shorter than a TLV header)
-		{0, 0, 0, 9, 1, 2},                   // a padding TLV cut short
-		{0x99, 0x99, 0, 2, 7, 7, 0, 0, 0, 0}, // an unknown TLV and an empty padding TLV
+		{0, 0, 0},                            // three stray bytes (shorter than a record header)
+		{0, 0, 0, 9, 1, 2},                   // a padding record cut short
+		{0x99, 0x99, 0, 2, 7, 7, 0, 0, 0, 0}, // an unknown record and an empty padding record
 	}
-	raw := append(append([]byte{}, disc...), tails[c.Tail%len(tails)]...)
+	raw = append(raw, tails[c.Tail%len(tails)]...)
 	nSec := len(m.A.Sec)
-	m.fromR(m.R.SendOpts(nil, ref.DataOpts{Flags: 1, RawPlain: raw}))
-	m.R.Encrypted = false
-	m.Settle(nil, nil)
-	if m.A.C.IsEncrypted() {
-		return o.Fail("C03/peer-end-missed", "the peer ended the session (disconnect TLV followed by %x in the same message) and the conversation still reports encrypted", tails[c.Tail%len(tails)])
+	flags := byte(1)
+	if c.Words {
+		flags = 0
 	}
-	gone := false
-	for _, e := range m.A.Sec[nSec:] {
-		if e == otr3.GoneInsecure {
-			gone = true
+	m.fromR(m.R.SendOpts(nil, ref.DataOpts{Flags: flags, RawPlain: raw}))
+	m.R.Encrypted = false
+	var got []byte
+	var rerr error
+	m.Settle(func(cl *sim.Call) {
+		if cl != nil && cl.HasPl {
+			got = cl.Plain
+		}
+		if cl != nil && cl.Err != nil {
+			rerr = cl.Err
+		}
+	}, nil)
+	how := fmt.Sprintf("disconnect record with a %d-byte value, followed by %x, last words %v, padding first %v", c.Val, tails[c.Tail%len(tails)], c.Words, c.Pad > 0)
+	if prop == "C08" {
+		// whatever the conversation says about itself: the peer has ended the session, its secrets have to be gone
+		g := sim.Walk(m.A.C)
+		for _, d := range m.A.R.Draws {
+			if d.N != 40 {
+				continue
+			}
+			if regs := g.FindRegions(d.Data); len(regs) > 0 {
+				return o.Fail("C08/secret-after-end", "the peer ended the session (%s): a D-H exponent (draw #%d) is still reachable at %s", how, d.Idx, regs[0].Path)
+			}
+			if len(d.Alias) > 0 && sim.StillHolds(d.Alias, d.Data) {
+				return o.Fail("C08/not-erased", "the peer ended the session (%s): the buffer D-H exponent #%d was drawn into was dropped without being zeroed", how, d.Idx)
+			}
 		}
 	}
-	if !gone {
-		return o.Fail("C03/peer-end-missed", "the peer ended the session and no GoneInsecure was raised")
+	if m.A.C.IsEncrypted() {
+		return o.Fail(prop+"/peer-end-missed", "the peer ended the session (%s) and the conversation still reports encrypted", how)
+	}
+	gone := 0
+	for _, e := range m.A.Sec[nSec:] {
+		if e == otr3.GoneInsecure {
+			gone++
+		}
+	}
+	if gone == 0 {
+		return o.Fail(prop+"/peer-end-missed", "the peer ended the session (%s) and no GoneInsecure was raised", how)
+	}
+	switch prop {
+	case "C18":
+		if gone != 1 {
+			return o.Fail("C18/events", "the peer ended the session (%s): GoneInsecure was raised %d times", how, gone)
+		}
+		if c.Words && (string(got) != words || rerr != nil) {
+			return o.Fail("C18/peer-end-last-words", "the peer's last message (%s) was delivered as %q with error %v", how, got, rerr)
+		}
 	}
 	text := []byte(token(0, 99) + " typed after the peer left")
 	before := len(m.QtoR)
 	call := m.ASend(text)
 	if call.Err == nil || len(m.QtoR) != before {
-		return o.Fail("C03/finished-send", "Send after the peer ended the session returned err=%v and emitted %d message(s); it must refuse and emit nothing", call.Err, len(m.QtoR)-before)
+		return o.Fail(prop+"/finished-send", "Send after the peer ended the session returned err=%v and emitted %d message(s); it must refuse and emit nothing", call.Err, len(m.QtoR)-before)
+	}
+	if prop == "C18" {
+		nSec = len(m.A.Sec)
+		m.A.C.End()
+		call = m.ASend(text)
+		if call.Err != nil || len(m.QtoR) != before+1 || !bytes.Contains(m.QtoR[before], text) {
+			return o.Fail("C18/after-end", "after the peer's disconnect and End() a text must go out according to the plaintext policy; Send returned err=%v and emitted %d message(s)", call.Err, len(m.QtoR)-before)
+		}
+		for _, e := range m.A.Sec[nSec:] {
+			return o.Fail("C18/events", "End() after the peer's disconnect raised %v: the session had already ended", e)
+		}
 	}
 	o.Class(fmt.Sprintf("tail-%d", c.Tail%len(tails)))
+	if c.Val > 0 {
+		o.Class("record-with-value")
+	}
+	if c.Words {
+		o.Class("last-words")
+	}
 	o.NonTrivial = true
 	return o
 }
 
-func init() { reg("C03peerend", runPeerEnd) }
-
-func TestProp_C03_PeerEnds(t *testing.T) {
-	si, sn := sim.Shard()
-	idx := 0
+func peerEndCases() []*PeerEndCase {
+	var out []*PeerEndCase
 	for _, v := range []int{3, 2} {
 		for tail := 0; tail < 6; tail++ {
 			for pre := 0; pre < 3; pre++ {
-				idx++
-				if idx%sn == si {
-					sim.Judge(t, "C03peerend", &PeerEndCase{V: v, Tail: tail, Pre: pre})
+				out = append(out, &PeerEndCase{V: v, Tail: tail, Pre: pre})
+			}
+		}
+		for val := 0; val < 4; val++ {
+			for _, words := range []bool{false, true} {
+				for pad := 0; pad < 3; pad++ {
+					for pre := 0; pre < 2; pre++ {
+						if val == 0 && !words && pad == 0 {
+							continue
+						}
+						out = append(out, &PeerEndCase{V: v, Tail: (val + pad) % 2, Pre: pre, Val: val, Words: words, Pad: pad})
+					}
 				}
 			}
 		}
 	}
-	sim.MarkCompleted("C03peerend", true)
+	return out
 }
+
+func peerEndTest(t *testing.T, name string) {
+	si, sn := sim.Shard()
+	for i, c := range peerEndCases() {
+		if i%sn == si {
+			sim.Judge(t, name, c)
+		}
+	}
+	sim.MarkCompleted(name, true)
+}
+
+func init() {
+	reg("C03peerend", runPeerEndFor("C03"))
+	reg("C08peerend", runPeerEndFor("C08"))
+	reg("C18peerend", runPeerEndFor("C18"))
+}
+
+func TestProp_C03_PeerEnds(t *testing.T) { peerEndTest(t, "C03peerend") }
+func TestProp_C08_PeerEnds(t *testing.T) { peerEndTest(t, "C08peerend") }
+func TestProp_C18_PeerEnds(t *testing.T) { peerEndTest(t, "C18peerend") }
